@@ -475,10 +475,13 @@ def _equal_twin(v):
 
 def inputs_for(d, options=None):
     """strategy: ValueSpec of a dict input for decl d"""
+    cands = key_candidates(d, options)          # (before the naming options are written out: it lists the overridden generator names)
     d = resolve_naming(d)
-    cands = key_candidates(d, options)
     by_field = {fd["name"]: fd for fd in all_fields(d)}
-    stale = stale_names(d)
+    known = {k for n, k in cands if n is not None}
+    # names that look like input names of a field but are not: only the parent's declaration accepted them, or the class-level
+    # generator would have made them had the field not declared its own alias_from
+    stale = stale_names(d) + sorted({k for n, k in cands if n is None and k not in ("extra", "x1", "Extra", "zz") and k not in known})
 
     @st.composite
     def build(draw):
